@@ -94,7 +94,7 @@ CHECKS = {
         "(bytes returned, tell(), seek() return value). Detection: PE scaffolds behind stubs with marker and/or size field are located "
         "at the end of the stub for every nonce; every file of <=10/12 symbolic bytes is rejected with ValueError.",
         note="Trusted: z3; symx; BytesIO and cstruct-reader models; validity predicate of the detection harness: the size relation and "
-        "the marker designate a single candidate offset; pe.find_mz_offset is cut to None for files < 88 bytes, justified by lemma "
+        "the marker designate a single candidate offset; pe.find_mz_offset is cut to None for files < 64 bytes, justified by lemma "
         "obligations discharged in the same run.",
         ref="§4 C09"),
     "C14": dict(
@@ -156,7 +156,7 @@ CHECKS = {
         "the real 8192-byte buffer, a block at a symbolic offset at/around both buffer boundaries, offset 0/1 and end of file, keys "
         "69/00/a7(+2e), symbolic neighbour bytes and protocol value. H3: the block inside a PE section, raw and as XorEncoded stage (also: block key only "
         "reached by the all-keys retry; marker-less stub with a nonce containing ff ff ff), with architecture and compile stamp of the embedding image.",
-        note="Trusted: z3; symx; file models; cstruct readers; pe.find_mz_offset replaced by None for files < 88 bytes (lemma instances in the "
+        note="Trusted: z3; symx; file models; cstruct readers; pe.find_mz_offset replaced by None for files < 64 bytes (lemma instances in the "
         "same check). In all-keys mode the order of the 253 left-over keys is implementation-defined (the result must be a true first "
         "candidate of its key; ValueError only if no key at all has one). Settings are compared with BeaconConfig(block), whose decoding "
         "is C02's subject.",
